@@ -248,16 +248,6 @@ def canonKey (k : LpmKey) : Nat × List Bool := (k.prefixLen, (natBits 128 k.dat
 def keysEquiv (a b : List LpmKey) : Bool :=
   (a.all fun k => (b.map canonKey).contains (canonKey k)) && (b.all fun k => (a.map canonKey).contains (canonKey k))
 
-/-- Executable form of the theorems' hypothesis `Installed` (used by the driver on the maps dumped
-from the real kernel after a real reload): active length, every rule image, every LPM slot. -/
-def installedB (m : KMaps) (start : Nat) (kp : List KEntry) (tries : List (List Prefix)) : Bool :=
-  m.activeLen == kp.length && decide (kp.length ≤ MaxMatchSetLen) &&
-  (List.range kp.length).all (fun i => m.routing[i]? == (kp[i]?).map fun k => encodeGo .little (k.rewrite start)) &&
-  (List.range tries.length).all (fun idx =>
-    match m.lpmAt (ringSlot start idx), tries[idx]? with
-    | some keys, some t => keysEquiv keys (t.map cidrToKey)
-    | _, _ => false)
-
 /-! ## The kernel program -/
 
 /-- The arguments of `route()`: `flag[0]`, `flag[1]`, the 16 bytes of `flag[2..5]`, `flag[6]`,
@@ -305,6 +295,39 @@ def msMark (e : Endian) (ms : List Nat) : Nat := rd32 e ms 20
 /-- `(__s64)outbound | ((__s64)mark << 8) | ((__s64)must << 40)` -/
 def pack (outbound mark : Nat) (must : Bool) : Int :=
   Int.ofNat (outbound ||| (mark <<< 8) ||| (bpfBool must <<< 40))
+
+/-- What the kernel READS of a rule image is the typed entry `k`: type / not / outbound / must / mark at
+their offsets and the union member `route_eval_match` consults for that match type (little-endian
+target). Bytes the kernel never looks at are not constrained. -/
+def readsAs (img : List Nat) (k : KEntry) : Bool :=
+  msType img == k.cond.mtype && (msNot img != 0) == k.not && msOutbound img == k.outbound &&
+  (msMust img != 0) == k.must && msMark .little img == k.mark &&
+  match k.cond with
+  | .ipSet i => msIndex .little img == i
+  | .srcIpSet i => msIndex .little img == i
+  | .macSet i => msIndex .little img == i
+  | .port lo hi => msPortStart .little img == lo && msPortEnd .little img == hi
+  | .srcPort lo hi => msPortStart .little img == lo && msPortEnd .little img == hi
+  | .l4Proto mk => msEnum32 .little img % 256 == mk
+  | .ipVersion mk => msEnum32 .little img % 256 == mk
+  | .processName bs => msPname img == bs
+  | .dscp v => msDscp img == v
+  | .domainSet => true
+  | .fallback => true
+
+/-- Executable form of the theorems' hypothesis `Installed` (used by the driver on the maps dumped
+from the real kernel after a real reload): active length, what the kernel reads of every rule image,
+every LPM slot (up to trie-node identity). -/
+def installedB (m : KMaps) (start : Nat) (kp : List KEntry) (tries : List (List Prefix)) : Bool :=
+  m.activeLen == kp.length && decide (kp.length ≤ MaxMatchSetLen) &&
+  (List.range kp.length).all (fun i =>
+    match m.routing[i]?, kp[i]? with
+    | some img, some k => readsAs img (k.rewrite start)
+    | _, _ => false) &&
+  (List.range tries.length).all (fun idx =>
+    match m.lpmAt (ringSlot start idx), tries[idx]? with
+    | some keys, some t => keysEquiv keys (t.map cidrToKey)
+    | _, _ => false)
 
 /-- `route_match_lpm` -/
 def matchLpm (e : Endian) (m : KMaps) (c : RCtx) (ms : List Nat) (probe : Nat) : RCtx × Bool :=
